@@ -784,14 +784,20 @@ def registeredInit (c : Ctx) (off : Nat) : String := optStr c.t (getF c.t off (f
 def forMembers (n : Nat) (out : Out) (f : Nat → Out → Out) : Out :=
   (List.range n).foldl (fun o j => f j o) out
 
-/-- gistructinfo.c -/
-def dumpStruct (c : Ctx) (path : String) (off : Nat) (out : Out) : Out :=
+/-- g_struct_info_get_copy_function / g_struct_info_get_free_function:
+    `g_return_val_if_fail (GI_IS_STRUCT_INFO (info), NULL)` admits GI_INFO_TYPE_STRUCT only, so for a
+    GI_INFO_TYPE_BOXED info the answer is NULL whatever the StructBlob stores. -/
+def structFuncName (c : Ctx) (kind strOff : Nat) : String :=
+  if kind == K "GI_INFO_TYPE_STRUCT" then optStr c.t strOff else "(null)"
+
+/-- gistructinfo.c (`kind`: GI_INFO_TYPE_STRUCT or GI_INFO_TYPE_BOXED, both are StructBlobs) -/
+def dumpStruct (c : Ctx) (path : String) (kind off : Nat) (out : Out) : Out :=
   let sb (m : String) := getF c.t off (fld "StructBlob" m)
   let nf := sb "n_fields"
   let nm := sb "n_methods"
   let out := out.push (s!"{path} struct n_fields={nf} n_methods={nm} size={sb "size"} alignment={sb "alignment"} "
     ++ s!"foreign={n2b (sb "foreign")} gtype_struct={n2b (sb "is_gtype_struct")} type_name={registeredName c off} "
-    ++ s!"type_init={registeredInit c off} copy={optStr c.t (sb "copy_func")} free={optStr c.t (sb "free_func")}")
+    ++ s!"type_init={registeredInit c off} copy={structFuncName c kind (sb "copy_func")} free={structFuncName c kind (sb "free_func")}")
   let out := dumpAttrsKey c path "attr" off out
   let fOff (j : Nat) := structFieldOffset c.S (hasEmbAt c) off j
   let fNames := (List.range nf).map (fun j => infoName c (K "GI_INFO_TYPE_FIELD") (fOff j))
@@ -930,7 +936,7 @@ def dumpTypelib (t : Bytes) : Out :=
     if kind == K "GI_INFO_TYPE_FUNCTION" then dumpFunction c path .other off o
     else if kind == K "GI_INFO_TYPE_CALLBACK" then
       dumpCallable c path kind off (dumpAttrsKey c path "attr" off o)
-    else if kind == K "GI_INFO_TYPE_STRUCT" || kind == K "GI_INFO_TYPE_BOXED" then dumpStruct c path off o
+    else if kind == K "GI_INFO_TYPE_STRUCT" || kind == K "GI_INFO_TYPE_BOXED" then dumpStruct c path kind off o
     else if kind == K "GI_INFO_TYPE_UNION" then dumpUnion c path off o
     else if kind == K "GI_INFO_TYPE_ENUM" || kind == K "GI_INFO_TYPE_FLAGS" then dumpEnum c path off o
     else if kind == K "GI_INFO_TYPE_OBJECT" then dumpObject c path off o
